@@ -61,7 +61,7 @@ def scaling_factor(ctx, rule):
 def check(ctx):
     scaling_factor(ctx, "C03-a")
     n = 0
-    for cls in ("IdealReservoir", "SinglePhaseReservoir"):  # the concrete classes: an override in a subclass is seen through its MRO
+    for cls in ("IdealReservoir", "SinglePhaseReservoir", "TwoPhaseReservoir"):  # the concrete classes: an override in a subclass is seen through its MRO
         density_mode(ctx, "C03-b", cls)
         n += flux_mode(ctx, "C03-c", cls)
         scale_rule(ctx, "C03-d", cls)
